@@ -45,8 +45,11 @@ def generate(repo, emit, src, func_body):
                 val = 'true'
             elif nulls and 'dealloc' not in l and 'return' not in l:
                 val = 'false'
-    emit('gc_rem_pending_finalises', None if val is None else
-         'Definition gc_rem_pending_finalises : bool := %s.   (* source: freelist loop of GC_Rem_Ptr *)' % val)
+    # an unrecognised shape is treated as "not repaired": the model still builds (so that the
+    # correspondence and the oracle still run) while every theorem of Properties_C06.v breaks
+    emit('gc_rem_pending_finalises',
+         'Definition gc_rem_pending_finalises : bool := %s.   (* source: freelist loop of GC_Rem_Ptr%s *)'
+         % (val or 'false', '' if val else ' — SHAPE NOT RECOGNISED'))
 
     sw = func_body(gc, r'void\s+GC_Sweep\s*\(struct GC\*\s*gc\)\s*\{')
     val = None
@@ -60,8 +63,9 @@ def generate(repo, emit, src, func_body):
                 val = 'true'
             elif d and not n and re.search(r'if\s*\(\s*gc->freelist\[i\]\s*\)', l):
                 val = 'false'
-    emit('gc_sweep_nulls_first', None if val is None else
-         'Definition gc_sweep_nulls_first : bool := %s.   (* source: finaliser loop of GC_Sweep *)' % val)
+    emit('gc_sweep_nulls_first',
+         'Definition gc_sweep_nulls_first : bool := %s.   (* source: finaliser loop of GC_Sweep%s *)'
+         % (val or 'false', '' if val else ' — SHAPE NOT RECOGNISED'))
 
     # remaining shapes
     failed = []
